@@ -14,6 +14,7 @@ import SaramaVerif.Model.CodecSchemas
     mset cz=<raw>:<comp>,… <block>…       → <hex>
     dmset cz=<comp>:<raw>,… <hex>         → ok p=<0|1> o=<0|1> rest=<n> <block>… | err
     kind <hex>                  → legacy | default | none
+    const <name>                → value of the model's constant
     schema <Body> <ver> <tok>…  → <size> <hex> rt=ok   (schema interpreters size / enc / dec on the parsed value)
     dschema <Body> <ver> <hex>  → <out>… off=<n>       (schema decoder on the real bytes, as decode-call results)
 -/
@@ -293,6 +294,9 @@ def step (_ : Unit) (t : List String) : Unit × String :=
     (match parseAll parseTok ts with
      | none => ((), "bad-op")
      | some toks => ((), schemaAnswer name (nat! ver) toks))
+  | ["const", name] =>
+    ((), if name = "maximumRecordOverhead" then toString maximumRecordOverhead
+         else if name = "recordBatchOverhead" then toString recordBatchOverhead else "bad-op")
   | ["dschema", name, ver, hex] => ((), dschemaAnswer name (nat! ver) (hexBytes hex))
   | ["kind", hex] =>
     ((), match recordsKind (hexBytes hex) with
